@@ -344,7 +344,7 @@ def _mark(U, root, v, st):
 # ------------------------------------------------------------------------------------------ the check
 def run(ctx):
     findings = vlib.load_findings("C04")
-    st = vlib.proof_stage(ctx, "C04", PROOF_TARGETS + ["TypifyModel.Proofs.Tagging"], PROOF_FILES + ["Proofs/Tagging.lean"], slices=["ir", "c04", "tag"])
+    st = vlib.proof_stage(ctx, "C04", PROOF_TARGETS + ["TypifyModel.Proofs.Tagging", "TypifyModel.Proofs.TaggingComplete"], PROOF_FILES + ["Proofs/Tagging.lean", "Proofs/TaggingComplete.lean"], slices=["ir", "c04", "tag"])
     # which tagging mode, tag, content member and variant names a union gets: enums.rs against Model/Tagging.lean (M0)
     import tagstage
     tstats, tdis = tagstage.stage(ctx, ctx.tier == "thorough") if st["driver_ok"] else ({"ran": False}, [])
